@@ -1,2 +1,14 @@
 import Plonk.Props.C02
 #print axioms Plonk.Props.C02.placeholder_consts
+#print axioms Plonk.Props.C02.accumulator_telescopes
+#print axioms Plonk.Props.C02.accumulator_telescopes_poly
+#print axioms Plonk.Props.C02.perm_identities_no_copy_violation
+#print axioms Plonk.Props.C02.identity_at_point_lifts
+#print axioms Plonk.Props.C02.forced_proof_rejected_outside_bad_set
+#print axioms Plonk.Props.C02.challenge_separation_alpha
+#print axioms Plonk.Props.C02.challenge_separation_widgets
+#print axioms Plonk.Props.C02.forged_evaluation_rejected
+#print axioms Plonk.Props.C02.forged_evaluation_rejected_model
+#print axioms Plonk.Props.C02.forged_evaluation_rejected_agm
+#print axioms Plonk.Props.C02.soundness_algebraic
+#print axioms Plonk.Props.C02.soundness_bad_sets
